@@ -50,6 +50,12 @@ func (e *Env) Client(opts ...kgo.Opt) (*kgo.Client, error) {
 	return cl, nil
 }
 
+// Settle waits until every goroutine of the bubble is durably blocked: everything the client
+// has written has then been read, recorded and handled by the scripted broker. Call it before
+// reading Frames()/Sent() when a call may have returned without waiting for the broker
+// (cancelled contexts, replies that were sent ahead of the request).
+func (e *Env) Settle() { synctest.Wait() }
+
 // Since returns the virtual time elapsed in the bubble.
 func (e *Env) Since() time.Duration { return time.Since(e.Start) }
 
